@@ -56,6 +56,14 @@ class Gen:
                 continue
             return dict(o=o, d=d, n=n, w=w)
 
+    def poly_frame(self):
+        """small lattice frame for coplanar polygons: o, d, v span the plane"""
+        while True:
+            o, u, v = self.ipt(-2, 2), self.ipt(-2, 2), self.ipt(-2, 2)
+            n = cross(u, v)
+            if not is0(n):
+                return dict(o=o, d=u, v=v, n=n, w=cross(n, u))
+
     def on_line(self, fr):
         return add(fr['o'], mul(self.R.choice(TS), fr['d']))
 
@@ -162,7 +170,7 @@ class Gen:
                 u = self.ipt(-2, 2)
                 v = self.ipt(-2, 2)
             else:
-                o, u, v = fr['o'], fr['d'], self._wred(fr)
+                o, u, v = fr['o'], fr['d'], fr.get('v') or self._wred(fr)
             if is0(cross(u, v)):
                 continue
             k = R.randint(nmin, nmax + 2)
